@@ -638,6 +638,18 @@ def standard_script(rng, cs):
          "create_dir 0 %s 4" % h("Dir A"), "create_dir 4 %s 5" % h("nested dir with a long name"), "drop_dir 5"]
     for k in range(9):
         L += ["create_file 4 %s 6" % h("entry number %02d in dir a.txt" % k), "write_pat 6 %d %d" % ((k % 3) * cs + k, k), "drop_file 6"]
+    # cursor exactly on a cluster boundary, then a seek INTO the following cluster (same floor, different ceiling of offset /
+    # cluster size), then truncate / append there; the same after reaching the boundary by reading
+    L += ["create_file 0 %s 15" % h("boundary.bin"), "write_pat 15 %d 6" % (3 * cs), "seek 15 start %d" % cs, "seek 15 cur 7", "truncate 15", "flush 15",
+          "extents 15", "seek 15 start 0", "read 15 %d" % cs, "seek 15 cur 3", "write_pat 15 %d 7" % (2 * cs), "flush 15", "extents 15",
+          "seek 15 start %d" % (2 * cs), "seek 15 end 0", "write_pat 15 9 8", "seek 15 start 0", "read_all 15 100000", "drop_file 15"]
+    # two entries occupying the SAME slot range of two different directories: a rename of one onto the other's name must see
+    # that the destination exists
+    L += ["create_dir 0 %s 16" % h("same one"), "create_dir 0 %s 17" % h("same two"),
+          "create_file 16 %s 18" % h("twin.txt"), "write_pat 18 11 1", "drop_file 18", "create_file 17 %s 18" % h("twin.txt"), "write_pat 18 22 2", "drop_file 18",
+          "drop_dir 16", "drop_dir 17",
+          "rename 0 %s 0 %s" % (h("same one/twin.txt"), h("same two/twin.txt")), "rename 0 %s 0 %s" % (h("same one/twin.txt"), h("same two/TWIN.TXT")),
+          "open_file 0 %s 18" % h("same two/twin.txt"), "read_all 18 100", "drop_file 18", "open_file 0 %s 18" % h("same one/twin.txt"), "read_all 18 100", "drop_file 18"]
     L += ["create_dir 0 %s 11" % h("anc a"), "create_dir 11 %s 12" % h("anc b"), "create_dir 0 %s 13" % h("anc c"),
           "create_file 12 %s 14" % h("inner.txt"), "write_pat 14 10 1", "drop_file 14", "drop_dir 12", "drop_dir 11", "drop_dir 13",
           "rename 0 %s 0 %s" % (h("anc a/anc b"), h("anc c/anc b")),                 # b now lives under c
